@@ -14,6 +14,7 @@ let err_class (e : Sparse.rerr) : string =
   | Sparse.XStore c -> (match int_of_n c with 1 -> "missing" | 2 -> "fault" | 3 -> "other" (* undecodable object: Chunk.Data() fails *) | 5 -> "wrapped-eof" | n -> "store" ^ string_of_int n)
   | Sparse.XNoData -> "other"
   | Sparse.XNegative -> "other"
+  | Sparse.XUnexpectedEOF -> "unexpected-eof"
 
 let show_entry ((rq, r) : Sparse.request * Sparse.result) : string =
   let q = match rq with
